@@ -10,6 +10,7 @@ BASELINE = ("cd /repo && /venv/bin/python -m pytest -ra -q -p no:cacheprovider -
             "--continue-on-collection-errors")
 
 E1 = "bounded exhaustive exploration of operation histories on the real implementation against a reference model (explicit-state / stateless model checking)"
+E1S = E1 + "; plus explicit-state breadth-first search with state de-duplication on the canonical file state, every transition fired on a byte copy of the real file and checked against the model (mc/bfs.py)"
 E2 = "exhaustive enumeration of the complete Cartesian product of small input domains on the real implementation against an independent reference function"
 E3 = "exhaustive enumeration of fault / interruption / crash points over a bounded set of histories on the real implementation"
 
@@ -17,15 +18,15 @@ CHECKS = {
     "C01": ("model_checking", E1, "3 C01",
             "every dtype x shape x creation path x write/assign/append/resize history (bounded depth) x compression combination is executed on the real library and compared with a NumPy reference after every step and after reopen",
             "small-scope: extents <= 3, depth <= 3; HDF5/h5py trusted for the raw bytes"),
-    "C02": ("model_checking", E1, "3 C02",
-            "all operation histories up to the depth bound over a collision-forcing alphabet through two handles; complete introspective walk compared before close / after reopen RO / RW and with the reference model at every step",
-            "small-scope: 2 names per kind, depth bound; state outside the HDF5 file is limited to handle caches"),
+    "C02": ("model_checking", E1S, "3 C02",
+            "all operation histories up to the depth bound over a collision-forcing alphabet through two handles (un-merged), and every transition from every canonical state within the BFS depth (merged); complete introspective walk compared before close / after reopen RO / RW and with the reference model at every step; a twin file open in the same process must stay unchanged",
+            "small-scope: 2 names per kind, depth bound; state outside the HDF5 file is limited to handle caches and whatever a twin file in the same process can reveal"),
     "C03": ("model_checking", E1, "3 C03",
             "all create/delete histories per container kind over an adversarial name alphabet; every lookup form cross-checked against the creation-ordered model sequence after every step",
             "small-scope: history depth and alphabet are bounded"),
-    "C04": ("model_checking", E1, "3 C04",
-            "every delete / unlink of every entity by every addressing mode in every link topology within the bound, chained; whole-file walk compared with the model",
-            "small-scope: <= k links added to the rich seed"),
+    "C04": ("model_checking", E1S, "3 C04",
+            "every delete / unlink of every entity by every addressing mode in every link topology within the bound (incl. links that cross block boundaries), chained; link topologies enumerated by a de-duplicated BFS; whole-file walk compared with the model and an HDF5-level scan for deleted ids",
+            "small-scope: <= k links added to the seeds"),
     "C05": ("model_checking", E1, "3 C05",
             "full path x path mutation/read matrix for every link kind, every append candidate class, every dimension-link index specification",
             "small-scope topologies; ranks <= 3"),
@@ -110,7 +111,7 @@ def build():
         "engines": [{
             "name": "mc", "path": "/verif/mc",
             "serves_properties": [c["property_id"] for c in checks],
-            "kind_free_text": "hand-written bounded exhaustive explorer for Python: history explorer vs reference model (E1), product-domain enumerator (E2), fault-point enumerator (E3); 16 worker processes",
+            "kind_free_text": "hand-written bounded exhaustive explorer for Python: history explorer vs reference model (E1, un-merged sequences), explicit-state BFS with de-duplication on the canonical file state (E1s), product-domain enumerator (E2), fault-point enumerator (E3); 16 worker processes",
         }],
         "checks": checks,
         "not_applicable": na,
